@@ -468,6 +468,16 @@ def _chunk_body(args):
     modname, base, lo, hi, tier = args
     import gc
 
+    try:
+        # a run that allocates without bound (a parser loop that keeps appending) must end in MemoryError inside the
+        # run, not take the machine down: the address space of a chunk child is capped
+        import resource
+
+        cap = int(os.environ.get("VERIF_MEM_CAP_GB", "3")) << 30
+        resource.setrlimit(resource.RLIMIT_AS, (cap, cap))
+    except Exception:
+        pass
+
     gc.disable()
     mod = _import_check(modname)
     from checks import known
